@@ -146,9 +146,9 @@ HARNESSES = [
     ),
     Harness(
         name="H10-two-queues", scenario=h10, workers=16, budget_s=900,
-        params={"quick": {"max_m": 2, "extra_max": 1, "queues": 2, "dmax_us": 1000, "max_limit": 2},
-                "thorough": {"max_m": 2, "extra_max": 2, "queues": 2, "dmax_us": 2000, "max_limit": 2}},
-        bounds={"queues": "2", "M": "[1, 2]", "backlog": "M+1 (quick) / up to M+2", "durations": "(0, 1 ms] / (0, 2 ms]"},
+        params={"quick": {"max_m": 3, "extra_max": 1, "queues": 2, "dmax_us": 1000, "max_limit": 2},
+                "thorough": {"max_m": 3, "extra_max": 3, "queues": 2, "dmax_us": 2000, "max_limit": 2}},
+        bounds={"queues": "2", "M": "[1, 3]", "backlog": "M+1 (quick) / up to M+3", "tasks_limit": "[1, 2] (also below M)", "durations": "(0, 1 ms] / (0, 2 ms] incl. actors finishing at the same instant"},
         covers=["run-returned"],
     ),
     Harness(
@@ -158,6 +158,13 @@ HARNESSES = [
         bounds={"broker": "real Redis broker/consumer (prefetch buffer) on the fake server", "M": "1 quick / [1,2] thorough", "backlog": "M+1..M+2",
                 "durations": "(0, 250 ms]", "tasks_limit": "[1, 2]"},
         functions=["connections/redis/consumer.py:_RedisConsumer.finish"], covers=["run-returned"], stubs=["fake Redis server"]),
+    Harness(
+        name="H10-rabbit-two-queues", scenario=h10, workers=16, budget_s=900,
+        params={"quick": {"max_m": 2, "extra_max": 1, "queues": 2, "dmax_us": 50000, "max_limit": 2, "backend": "rabbit"},
+                "thorough": {"max_m": 3, "extra_max": 2, "queues": 2, "dmax_us": 50000, "max_limit": 2, "backend": "rabbit"}},
+        bounds={"broker": "real RabbitMQ broker/consumer on the fake channel", "queues": "2", "M": "[1, 2] quick / [1, 3] thorough", "durations": "(0, 50 ms]", "tasks_limit": "[1, 2]"},
+        functions=["connections/rabbitmq/consumer.py:_RabbitConsumer.finish", "connections/rabbitmq/message_broker.py:RabbitMessageBroker.reject"],
+        covers=["run-returned"], stubs=["fake AMQP server"]),
     Harness(
         name="H10-plugin", scenario=h10_plugin, workers=4,
         bounds={"older messages in the queue": "[0, 1]", "actor duration": "[0, 2 ms]"},
